@@ -41,7 +41,7 @@ def run(tier, replay=None):
             fcases.append({"mode": "fold", "op": op, "pairs": pairs[k:k + 500], "random": True})
     for i, c in enumerate(fcases):
         c["id"] = i + 1
-    tp, evs = run_harness(rvh, fcases, wd, "fold")
+    tp, evs = run_harness_par(rvh, fcases, wd, "fold")
     v, acc, res = tlc_validate("Trace_Fold", tp, heap="8g")
     out.add_tlc(res)
     if not acc:
@@ -60,7 +60,7 @@ def run(tier, replay=None):
     out.add_tlc(gres)
     hc = [{"id": i + 1, "mode": "observe", "text": c["text"] + "\nL: nop\n", "want": ["nodes"]}
           for i, c in enumerate(dcases)]
-    tp, evs = run_harness(rvh, hc, wd, "decode")
+    tp, evs = run_harness_par(rvh, hc, wd, "decode")
     for e, c in zip(evs, dcases):
         e["case"] = c
     write_ndjson(tp, evs)
